@@ -24,7 +24,7 @@ ASSUMPTIONS = [
     "utcoffset, fold always 0), dateutil-like (utcoffset honours fold, no key), datetime.timezone, zoneinfo.ZoneInfo",
     "pendulum.tz._tz_cache replaced by an equality-compared mapping (same semantics as hashing, forks on symbolic keys)",
 ]
-OUTSIDE = ["timestamp()/from_timestamp() with non-integral floats", "A->B->C chains (composition of two proven steps; "
+OUTSIDE = ["timestamp()/from_timestamp() with non-integral floats other than the six concrete dyadic values of the from_timestamp <ts> cases (symbolic floats are not modelled)", "A->B->C chains (composition of two proven steps; "
            "each step's result is a valid value of its zone)", "the ~598 zone names as data"]
 REACH = ["source in overlap second pass", "target in overlap second pass", "target before transition",
          "target after transition", "same zone object", "pytz-like second pass (known finding region)"]
@@ -92,6 +92,21 @@ def timestamp(ctx, tkind, ylo, yhi):
     ctx.claim("int_timestamp inverts from_timestamp", r.int_timestamp == t)
     ts = r.timestamp()
     ctx.claim("timestamp() inverts from_timestamp", ts == t)
+    ctx.observe("r", fields(r) + [off_seconds(r), r.fold, r.int_timestamp])
+
+
+def timestamp_frac(ctx, tkind, ts):
+    """a concrete dyadic (exactly representable) fractional timestamp, either sign, into a symbolic target zone"""
+    import math
+    P = ctx.P
+    fl = math.floor(ts)
+    us = int((ts - fl) * 1000000)            # exact: ts is a multiple of 2^-6 with |ts| < 2^40
+    u = cal.EPOCH_ORD * 86400 + fl
+    anchor = cal.EPOCH_ORD + fl // 86400
+    tz, Ts, offs = _target(ctx, tkind, anchor)
+    r = P.from_timestamp(ts, tz)
+    _expect(ctx, r, tz, Ts, offs, u, us, "from_timestamp")
+    ctx.claim("timestamp() inverts from_timestamp", r.timestamp() == ts)
     ctx.observe("r", fields(r) + [off_seconds(r), r.fold, r.int_timestamp])
 
 
@@ -197,6 +212,10 @@ def cases(tier):
     for tk in ("zone", "utc", "fixed"):
         out.append(dict(name=f"from_timestamp {tk}", fn=timestamp, params=dict(tkind=tk, ylo=win[0], yhi=win[1]),
                         bounds=f"every integral timestamp in years {win[0]}..{win[1]} x target {tk}"))
+    for ts in (-1.5, -0.25, -86400.75, -946684799.984375, 0.5, 951782400.015625):
+        for tk in (("zone", "fixed") if tier == "quick" else ("zone", "utc", "fixed")):
+            out.append(dict(name=f"from_timestamp {ts!r} {tk}", fn=timestamp_frac, params=dict(tkind=tk, ts=ts),
+                            bounds=f"the fractional timestamp {ts!r} (exact in binary) x every target {tk}"))
     for kind in ("zoneinfo", "timezone", "pytz", "dateutil"):
         out.append(dict(name=f"instance {kind}", fn=instance, params=dict(kind=kind, ylo=win[0], yhi=win[1]),
                         bounds=f"every valid aware native datetime in years {win[0]}..{win[1]} (both folds) whose tzinfo is a "
